@@ -210,7 +210,7 @@ class RefModel:
             d[e['wkey']] = e['w']
         return d
 
-    def evaluator(self, y, p, t=0.0, delayed=None, mp=None, inputs=None):
+    def evaluator(self, y, p, t=0.0, delayed=None, mp=None, inputs=None, hist=None):
         """Return value(key) closure. delayed: optional fn(edge, getter)->source value for delayed edges.
         inputs: dict key -> extra additive extrinsic input value."""
         memo = {}
@@ -244,7 +244,7 @@ class RefModel:
                 elif kd == 'const':
                     r = conv(p[key])
                 elif kd == 'alg':
-                    r = self._eval(self.eq[key], key[0], key[1], value, mp)
+                    r = self._eval(self.eq[key], key[0], key[1], value, mp, t, hist)
                 else:  # input
                     terms = []
                     for s in self._intra_sources(key):
@@ -283,8 +283,12 @@ class RefModel:
         value.edge_raw_source = edge_raw_source
         return value
 
-    def _eval(self, ex, node, op, value, mp):
+    def _eval(self, ex, node, op, value, mp, t=0.0, hist=None):
         def env(name):
+            if isinstance(name, tuple):       # ('past', var, tau): delayed value of a variable of this operator
+                if hist is None:
+                    raise RefError('past() needs a history')
+                return hist((node, op, name[1]), t - name[2])
             if name == 't':
                 raise RefError('t not supported here')
             return value((node, op, name))
@@ -292,12 +296,16 @@ class RefModel:
             return E.ev_mp(ex, env, mp)
         return E.ev(ex, env)
 
-    def rhs(self, y, p, t=0.0, delayed=None, mp=None, inputs=None):
-        """Derivatives of all state variables (and hidden chain states) as dict key -> value."""
-        value = self.evaluator(y, p, t, delayed, mp, inputs)
+    def rhs(self, y, p, t=0.0, delayed=None, mp=None, inputs=None, hist=None):
+        """Derivatives of all state variables (and hidden chain states) as dict key -> value.
+        hist(key, time) -> past value of a state variable (for past() terms and delayed edges under adaptive solvers)."""
+        if hist is not None and delayed is None:
+            def delayed(e, raw, t=t):
+                return hist(e['src'], t - float(e['delay']))
+        value = self.evaluator(y, p, t, delayed, mp, inputs, hist)
         out = {}
         for k in self.state_keys:
-            out[k] = self._eval(self.eq[k], k[0], k[1], value, mp)
+            out[k] = self._eval(self.eq[k], k[0], k[1], value, mp, t, hist)
         for e in self.edges:
             ck = e.get('chain_keys')
             if ck:
